@@ -38,9 +38,9 @@ type impTarget struct {
 	elem               string   // name of a type treated as an ABSTRACT element type F with operations mul / one / inv (field level)
 	abstract           []string // package-local functions called as ABSTRACT parameters (hash arguments dropped); their source text is
 	// emitted as `abstractSrc` so that an edit of them breaks the proofs that pin it
-	grp    string // name of a point type treated as an ABSTRACT group element type G with operations add / dbl / neg / zero (imp_grp.go)
-	inf    string // name of the package-level variable holding the point at infinity (read as `zero`)
-	digest bool   // the MiMC digest state machine (imp_digest.go): struct over the abstract element type, field primitives / codecs as parameters
+	grp    string     // name of a point type treated as an ABSTRACT group element type G with operations add / dbl / neg / zero (imp_grp.go)
+	inf    string     // name of the package-level variable holding the point at infinity (read as `zero`)
+	digest bool       // the MiMC digest state machine (imp_digest.go): struct over the abstract element type, field primitives / codecs as parameters
 	guards []impGuard // accepted alternative layout: exported function = panic guard around an unexported body
 }
 
